@@ -43,9 +43,11 @@ BOUNDS = (
     "rx: all strings; xh: 5 caller kinds; declared Content-Length any int or absent; actual body length any int>=0; "
     "14 JSON body shapes; subject token any str len<=%d, or exactly _MAX_TOKEN_CHARS / _MAX_TOKEN_CHARS+1 chars; "
     "ttl_seconds any int, nan, +-inf, a finite float, bool, None, str; principal/token_name any str len<=2; "
-    "retry_after 0..3 (rendering a symbolic int to text enumerates its values)" % _TL
+    "retry_after 0..1 (rendering a symbolic int to text enumerates its values)" % _TL
 )
 OUTSIDE = (
+    "quick tier: interaction between the request gates (caller/lengths/body shape) and the subject/resolver part is "
+    "decided group by group; the full product is the thorough tier; "
     "falcon's rendering of HTTPServiceUnavailable and of an escaping exception (500); _AuthMiddleware in front of the "
     "route (an anonymous caller normally gets 401 there); the rate limiter (stubbed to allow); json.loads/json.dumps "
     "themselves; timing side channels; tokens between len %d and the cap" % _TL
@@ -526,13 +528,13 @@ _TABLE_STUBS = ["json := contract stub (loads: any JSON value | ValueError | Uni
                 "_get_auth_and_metadata := harness caller", "_limiter.allow := True", "falcon req/resp := attribute fakes"]
 
 
-@cond(q=60, t=240, stubs=_TABLE_STUBS, encoded=ENCODED, bound=BOUNDS, replay=_replay_endpoint,
+@cond(q=60, t=240, tiers=("thorough",), stubs=_TABLE_STUBS, encoded=ENCODED, bound=BOUNDS, replay=_replay_endpoint,
       signature=lambda args, conc: SIG_TTL if args.get("res_kind") == 0 else "C36:status-table")
 def endpoint_status_table(caller: int, has_len: bool, clen: int, blen: int, body_kind: int, tok_kind: int, tok: str,
                           res_kind: int, ttl_kind: int, ttl: int, princ: str, tname: str, retry_after: int) -> bool:  # fmt: skip
     """
     pre: 0 <= caller <= 4 and blen >= 0 and 0 <= body_kind <= 13 and 0 <= tok_kind <= 2 and len(tok) <= _TL
-    pre: 0 <= res_kind <= 3 and 0 <= ttl_kind <= 7 and len(princ) <= 2 and len(tname) <= 2 and 0 <= retry_after <= 3
+    pre: 0 <= res_kind <= 3 and 0 <= ttl_kind <= 7 and len(princ) <= 2 and len(tname) <= 2 and 0 <= retry_after <= 1
     post: _
     """
     if is_open(SIG_TTL) and res_kind == 0 and not _finite_positive(ttl if ttl_kind == 0 else _pick(_TTL_SPECIALS, ttl_kind - 1)):
@@ -540,17 +542,59 @@ def endpoint_status_table(caller: int, has_len: bool, clen: int, blen: int, body
     return _check_table(caller, has_len, clen, blen, body_kind, tok_kind, tok, res_kind, ttl_kind, ttl, princ, tname, retry_after)
 
 
-@cond(q=60, t=240, stubs=_TABLE_STUBS, encoded=ENCODED, bound=BOUNDS + "; resolver identities restricted to a finite positive ttl_seconds (any int > 0, or 0.5)",
+@cond(q=60, t=240, tiers=("thorough",), stubs=_TABLE_STUBS, encoded=ENCODED, bound=BOUNDS + "; resolver identities restricted to a finite positive ttl_seconds (any int > 0, or 0.5)",
       replay=_replay_endpoint, signature=lambda args, conc: "C36:status-table")
 def endpoint_status_table_wellformed_identity(caller: int, has_len: bool, clen: int, blen: int, body_kind: int, tok_kind: int, tok: str,
                                               res_kind: int, ttl_kind: int, ttl: int, princ: str, tname: str, retry_after: int) -> bool:  # fmt: skip
     """
     pre: 0 <= caller <= 4 and blen >= 0 and 0 <= body_kind <= 13 and 0 <= tok_kind <= 2 and len(tok) <= _TL
-    pre: 0 <= res_kind <= 3 and len(princ) <= 2 and len(tname) <= 2 and 0 <= retry_after <= 3
+    pre: 0 <= res_kind <= 3 and len(princ) <= 2 and len(tname) <= 2 and 0 <= retry_after <= 1
     pre: (ttl_kind == 0 and ttl > 0) or ttl_kind == 4
     post: _
     """
     return _check_table(caller, has_len, clen, blen, body_kind, tok_kind, tok, res_kind, ttl_kind, ttl, princ, tname, retry_after)
+
+
+# quick tier: the same table, decided gate group by gate group (the full product above is the thorough tier)
+
+_GATE_FIXED = {"tok": "opaque", "ttl_kind": 0, "ttl": 300, "princ": "p", "tname": "n", "retry_after": 1}
+_SUBJ_FIXED = {"caller": 1, "has_len": False, "clen": 0, "blen": 40, "body_kind": 13}
+
+
+@cond(q=60, t=120, stubs=_TABLE_STUBS, encoded=ENCODED, replay=lambda args: _replay_endpoint({**_GATE_FIXED, **args}), signature=lambda args, conc: "C36:status-table",
+      bound="caller kinds x declared length (any int / absent) x actual length (any int>=0) x 14 body shapes x token {short, at cap, over cap} x 4 resolver outcomes; identity fixed and well-formed")
+def request_gates_table(caller: int, has_len: bool, clen: int, blen: int, body_kind: int, tok_kind: int, res_kind: int) -> bool:
+    """
+    pre: 0 <= caller <= 4 and blen >= 0 and 0 <= body_kind <= 13 and 0 <= tok_kind <= 2 and 0 <= res_kind <= 3
+    post: _
+    """
+    return _check_table(caller, has_len, clen, blen, body_kind, tok_kind, "opaque", res_kind, 0, 300, "p", "n", 1)
+
+
+@cond(q=60, t=120, stubs=_TABLE_STUBS, encoded=ENCODED, replay=lambda args: _replay_endpoint({**_SUBJ_FIXED, **args}),
+      signature=lambda args, conc: SIG_TTL if args.get("res_kind") == 0 else "C36:status-table",
+      bound="allowlisted caller, usable body: subject token any str len<=%d / at cap / over cap x 4 resolver outcomes x identity with ANY ttl_seconds (any int, nan, +-inf, 0.5, bool, None, str), principal/token_name any str len<=2, retry_after 0..1" % _TL)
+def subject_and_resolver_table(tok_kind: int, tok: str, res_kind: int, ttl_kind: int, ttl: int, princ: str, tname: str, retry_after: int) -> bool:
+    """
+    pre: 0 <= tok_kind <= 2 and len(tok) <= _TL and 0 <= res_kind <= 3 and 0 <= ttl_kind <= 7
+    pre: len(princ) <= 2 and len(tname) <= 2 and 0 <= retry_after <= 1
+    post: _
+    """
+    if is_open(SIG_TTL) and res_kind == 0 and not _finite_positive(ttl if ttl_kind == 0 else _pick(_TTL_SPECIALS, ttl_kind - 1)):
+        return True
+    return _check_table(1, False, 0, 40, 13, tok_kind, tok, res_kind, ttl_kind, ttl, princ, tname, retry_after)
+
+
+@cond(q=60, t=120, stubs=_TABLE_STUBS, encoded=ENCODED, replay=lambda args: _replay_endpoint({**_SUBJ_FIXED, **args}), signature=lambda args, conc: "C36:status-table",
+      bound="as subject_and_resolver_table, resolver identities restricted to a finite positive ttl_seconds (any int > 0, or 0.5)")
+def subject_and_resolver_table_wellformed_identity(tok_kind: int, tok: str, res_kind: int, ttl_kind: int, ttl: int, princ: str, tname: str, retry_after: int) -> bool:
+    """
+    pre: 0 <= tok_kind <= 2 and len(tok) <= _TL and 0 <= res_kind <= 3
+    pre: (ttl_kind == 0 and ttl > 0) or ttl_kind == 4
+    pre: len(princ) <= 2 and len(tname) <= 2 and 0 <= retry_after <= 1
+    post: _
+    """
+    return _check_table(1, False, 0, 40, 13, tok_kind, tok, res_kind, ttl_kind, ttl, princ, tname, retry_after)
 
 
 def _replay_disabled(args: dict) -> str | None:
